@@ -14,6 +14,10 @@
      GenFunsEquivC20   src_hopfield_rule_agrees, src_hopfield_train_agrees
      GenFunsEquivC08   src_totalistic_rule_agrees, src_totalistic_rule_call_agrees(_masked)
      GenFunsEquivC19   src_apen_maximum_distance_agrees, src_apen_windows_agrees, src_apen_count_agrees
+     GenFunsEquivC01   src_index_strides_agrees
+     GenFunsEquivC02   src_vn_mask_agrees, src_axis_indices_agrees
+     GenFunsEquivC10   src_block_indices_agrees
+     GenFunsEquivC03   src_memo_key_agrees, src_memo_split_agrees
      GenFunsEquivC16   src_shannon_symbols_agrees, src_shannon_count_agrees, src_joint_indicator_agrees,
                        src_ami_guard_agrees, src_ami_pair_agrees
    Each property's chain imports only its own gen/GenFuns_Cxx.v; this file (and gen/GenFuns.v) is a convenience. *)
@@ -21,7 +25,8 @@ From CPL Require Export gen.GenFuns.
 From CPL Require Export GenProps.GenFunsEquivC11 GenProps.GenFunsEquivC14 GenProps.GenFunsEquivC15
                         GenProps.GenFunsEquivC13 GenProps.GenFunsEquivC06 GenProps.GenFunsEquivC12
                         GenProps.GenFunsEquivC07 GenProps.GenFunsEquivC18 GenProps.GenFunsEquivC20
-                        GenProps.GenFunsEquivC08 GenProps.GenFunsEquivC19 GenProps.GenFunsEquivC16.
+                        GenProps.GenFunsEquivC08 GenProps.GenFunsEquivC19 GenProps.GenFunsEquivC16
+                        GenProps.GenFunsEquivC01 GenProps.GenFunsEquivC02 GenProps.GenFunsEquivC10 GenProps.GenFunsEquivC03.
 
 Print Assumptions src_game_of_life_rule_agrees.
 Print Assumptions src_sandpile_is_in_boundary_agrees.
@@ -46,3 +51,9 @@ Print Assumptions src_apen_windows_agrees.
 Print Assumptions src_apen_count_agrees.
 Print Assumptions src_joint_indicator_agrees.
 Print Assumptions src_ami_pair_agrees.
+Print Assumptions src_index_strides_agrees.
+Print Assumptions src_vn_mask_agrees.
+Print Assumptions src_axis_indices_agrees.
+Print Assumptions src_block_indices_agrees.
+Print Assumptions src_memo_key_agrees.
+Print Assumptions src_memo_split_agrees.
